@@ -202,6 +202,8 @@ func (r *rpcRun) fail(rule, f string, a ...any) {
 
 // handle is the server's rpc.Handler.
 func (r *rpcRun) handle(ctx rpc.Context, ch rpc.ServerChannel) (ref.R[[]byte], status.Status) {
+	hbAcquire()
+	defer hbRelease()
 	r.active++
 	defer func() { r.active-- }()
 	req, st := ch.Request(ctx)
@@ -230,7 +232,7 @@ func (r *rpcRun) handle(ctx rpc.Context, ch rpc.ServerChannel) (ref.R[[]byte], s
 	defer func() { s.handlerDone = true }()
 
 	if c.DelayUs > 0 {
-		simrt.Sleep(time.Duration(c.DelayUs) * time.Microsecond)
+		hSleep(time.Duration(c.DelayUs) * time.Microsecond)
 	}
 	if c.Kind == "channel" {
 		var g group
@@ -348,7 +350,7 @@ func (r *rpcRun) clientCall(id int, cl rpc.Client) {
 	s := r.cs[id]
 	defer func() { s.cliDone = true }()
 	if c.StartUs > 0 {
-		simrt.Sleep(time.Duration(c.StartUs) * time.Microsecond)
+		hSleep(time.Duration(c.StartUs) * time.Microsecond)
 	}
 	req, free := r.buildRequest(id)
 	defer free()
@@ -357,8 +359,8 @@ func (r *rpcRun) clientCall(id int, cl rpc.Client) {
 		cc := async.NewContext()
 		defer cc.Free()
 		ctx = cc
-		simrt.Go(fmt.Sprintf("call%d-cancel", id), func() {
-			simrt.Sleep(time.Duration(c.CancelUs) * time.Microsecond)
+		hGo(fmt.Sprintf("call%d-cancel", id), func() {
+			hSleep(time.Duration(c.CancelUs) * time.Microsecond)
 			simrt.Logf("call%d caller cancels", id)
 			cc.Cancel()
 		})
@@ -606,7 +608,7 @@ func (r *rpcRun) main(extra func(r *rpcRun, clients []rpc.Client, srv rpc.Server
 	g.wait("rpc.join-calls")
 	if p.Faulty {
 		// after the fault: every client must serve a fresh call (the listener is up)
-		simrt.WaitCond("rpc.handlers-released", func() bool { return r.active == 0 })
+		hWaitCond("rpc.handlers-released", func() bool { return r.active == 0 })
 		for id := range p.Calls {
 			if !p.Calls[id].Probe {
 				continue
@@ -622,7 +624,7 @@ func (r *rpcRun) main(extra func(r *rpcRun, clients []rpc.Client, srv rpc.Server
 		}
 	}
 	// every issued call's handler must have run (oneway handlers may still be on their way)
-	simrt.WaitCond("rpc.join-handlers", func() bool {
+	hWaitCond("rpc.join-handlers", func() bool {
 		if r.p.Faulty {
 			return r.active == 0
 		}
@@ -635,10 +637,10 @@ func (r *rpcRun) main(extra func(r *rpcRun, clients []rpc.Client, srv rpc.Server
 	})
 	// a cancelled call's request may still be on its way
 	for i := 0; i < 3; i++ {
-		simrt.WaitQuiescent("rpc.settle")
-		simrt.Sleep(100 * time.Millisecond)
+		hWaitQuiescent("rpc.settle")
+		hSleep(100 * time.Millisecond)
 	}
-	simrt.WaitCond("rpc.join-handlers2", func() bool { return r.active == 0 })
+	hWaitCond("rpc.join-handlers2", func() bool { return r.active == 0 })
 	if r.postNet != nil {
 		r.postNet(r.net)
 	}
@@ -648,12 +650,12 @@ func (r *rpcRun) main(extra func(r *rpcRun, clients []rpc.Client, srv rpc.Server
 		cl.Close()
 	}
 	simrt.Recv(0, srv.Stop())
-	simrt.WaitQuiescent("rpc.teardown")
+	hWaitQuiescent("rpc.teardown")
 	r.bg.Cancel()
-	simrt.WaitQuiescent("rpc.teardown2")
+	hWaitQuiescent("rpc.teardown2")
 	if r.p.Faulty {
-		simrt.Sleep(30 * time.Second)
-		simrt.WaitQuiescent("rpc.teardown3")
+		hSleep(30 * time.Second)
+		hWaitQuiescent("rpc.teardown3")
 		r.leaked = simrt.LiveTasks()
 	}
 }
